@@ -113,6 +113,35 @@ def gen_stream(rng):
     return H.gen_stream(rng, (1, 1))[1] + P.gen_noise(rng)
 
 
+def gen_interleaved(rng):
+    """clean messages of one kind, each in its own chunk(s), with separate junk / empty chunks between them
+    (junk that cannot start a message: no '/' for P1, no flag for HDLC)"""
+    chunks = []
+    if rng.random() < 0.5:
+        for _ in range(rng.choice([2, 3, 5])):
+            ro = P.gen_readout(rng)
+            chunks += lib.split_at(ro, lib.random_cuts(rng, len(ro), 2))
+            k = rng.randrange(4)
+            if k == 0:
+                chunks.append(b"")
+            elif k == 1:
+                chunks.append(bytes(rng.choice(b"\x00\r\n abc\xff") for _ in range(rng.randint(1, 6))))
+            elif k == 2:
+                chunks.append(b"\r\n")
+    else:
+        st = rng.random() < 0.5
+        for _ in range(rng.choice([2, 3, 5])):
+            f = H.make_frame(rng)
+            w = b"\x7e" + (H.stuff(f) if st else f) + b"\x7e"
+            chunks += lib.split_at(w, lib.random_cuts(rng, len(w), 2))
+            k = rng.randrange(4)
+            if k == 0:
+                chunks.append(b"")
+            elif k == 1:
+                chunks.append(bytes(rng.choice([0, 1, 0x55, 0xFF, 0x0D]) for _ in range(rng.randint(1, 6))))
+    return chunks
+
+
 def run(res, tier, seed, widen=1):
     rng = lib.rng_for(seed, "C13")
     res.rule = ("streams: clean HDLC, clean P1, corrupted, mixed noise x random chunkings x candidate lists {[H],[P],[H,P],[P,H],...} with 4 "
@@ -125,6 +154,9 @@ def run(res, tier, seed, widen=1):
         cases.append((rng.choice(["message", "payload"]), rng.choice(CANDS), chs))
     for i in range(0, len(cases), 3000):
         _run_cases(res, cases[i:i + 3000], "generated")
+    cases = [(rng.choice(["message", "payload"]), rng.choice(CANDS), gen_interleaved(rng)) for _ in range((600 if tier == "quick" else 15000) * widen)]
+    for i in range(0, len(cases), 3000):
+        _run_cases(res, cases[i:i + 3000], "interleaved_junk_and_empty_chunks")
 
 
 def search(res, tier, seed):
